@@ -5,6 +5,8 @@ HERE = os.path.dirname(os.path.dirname(os.path.abspath(__file__)))
 PY = '/venv/bin/python'
 
 def sh(cmd, cwd=None, env=None):
+    if env is None:
+        env = dict(os.environ, PYTHONHASHSEED='0')
     p = subprocess.run(cmd, cwd=cwd, env=env, capture_output=True, timeout=1800)
     return p.returncode, (p.stdout + p.stderr).decode(errors='replace')
 
